@@ -439,6 +439,14 @@ fn position_grid() -> Vec<(&'static str, E)> {
         ("reduce-step", method(E::List(vec![ilit(1)]), "reduce", vec![var("a"), var("x"), bin(Op::Add, var("a"), v()), ilit(0)])),
         ("reduce-seed", method(E::List(vec![ilit(1)]), "reduce", vec![var("a"), var("x"), var("a"), v()])),
         ("nested-macro", method(E::List(vec![ilit(1)]), "map", vec![var("x"), method(E::List(vec![ilit(2)]), "map", vec![var("x"), bin(Op::Add, var("x"), v())])])),
+        // the loop variable's name also read outside the loop scope of the same call
+        ("macro-range-same-name", method(v(), "map", vec![v(), bin(Op::Add, v(), ilit(1))])),
+        ("macro-range-expr-same-name", method(E::List(vec![v(), bin(Op::Add, v(), ilit(1))]), "exists", vec![v(), bin(Op::Gt, v(), var("k"))])),
+        ("filter-range-same-name", method(v(), "filter", vec![v(), t()])),
+        ("reduce-seed-same-name", method(E::List(vec![ilit(1), ilit(2)]), "reduce", vec![var("a"), v(), bin(Op::Add, var("a"), v()), v()])),
+        ("reduce-seed-acc-name", method(E::List(vec![ilit(1), ilit(2)]), "reduce", vec![v(), var("x"), bin(Op::Add, v(), var("x")), v()])),
+        ("nested-range-same-name", method(v(), "map", vec![v(), method(v(), "map", vec![v(), v()])])),
+        ("loop-var-only", method(E::List(vec![ilit(1)]), "map", vec![v(), v()])),
         ("has", call("has", vec![E::Field(Box::new(v()), "a".into())])),
         ("coalesce", call("coalesce", vec![E::Lit(V::Null), v()])),
         ("fstring", E::FStr(vec![FSeg::Lit("a".into()), FSeg::Expr(v())])),
